@@ -54,6 +54,9 @@ func (c *RawBtcConfig) Validate() error {
 	if c.BlockConfirmations < 1 {
 		return fmt.Errorf("blockConfirmations has to be >=1")
 	}
+	if c.BlockInterval < 1 {
+		return fmt.Errorf("blockInterval has to be >=1")
+	}
 
 	if c.Username == "" {
 		return fmt.Errorf("required field chain.Username empty for chain %v", *c.Id)
